@@ -25,10 +25,14 @@ func runC18(e *env, n int) {
 			e.rep.Fail(idx, "C18 GetCapabilities does not advertise the configured max_blob_size", text)
 		}
 	}
-	for i := 0; len(e.cases) < n; i++ {
-		f := e.fx[i%len(e.fx)]
-		path := pathOrder[(i/len(e.fx))%len(pathOrder)]
-		rel := c18Rels[(i/(len(e.fx)*len(pathOrder))+int(e.rep.Seed%5))%len(c18Rels)]
+	// a seed-dependent walk through fixtures x paths x sizes (stride coprime with the period)
+	period := len(e.fx) * len(pathOrder) * len(c18Rels)
+	start := r.Intn(period)
+	for i := 0; len(e.cases) < n && i < 8*period; i++ {
+		idx := (start + i*37) % period
+		f := e.fx[idx%len(e.fx)]
+		path := pathOrder[(idx/len(e.fx))%len(pathOrder)]
+		rel := c18Rels[idx/(len(e.fx)*len(pathOrder))]
 		L := int(f.limit)
 		sz := map[string]int{"L-1": L - 1, "L": L, "L+1": L + 1, "2L+5": 2*L + 5, "lie": L + 1}[rel]
 		kind := "none"
